@@ -126,6 +126,7 @@ func runProgram(srcStack, dstStack, dir string, k kase, w *vtrace.Writer) int {
 		ev["target"] = target
 		ev["placement"] = []any{} // fields PithosTrace.tla expects on call events (no placement observation here)
 		ev["placed"] = false
+		ev["refs_ok"] = true // part reference bookkeeping is observed by pithosdrv (C08), not here
 	}
 	it.Run(pdrv.Program{ID: k.ID, Calls: k.Calls})
 	for i, dp := range k.Dsts {
